@@ -293,13 +293,33 @@ func (X *Exec) freshResults(st *State, cc *ssa.CallCommon, hint string) *Val {
 
 func (X *Exec) execCallWith(fr *Frame, ins ssa.Instruction, cc *ssa.CallCommon, st *State, how string, fnv *Val, args []*Val) *Val {
 	// call-site assumptions: evaluated after the call against a snapshot taken before it
-	var assumes []*Clause
+	var assumes, afters []*Clause
 	for _, cs := range X.matchCallsites(fr, cc, how) {
 		assumes = append(assumes, cs.Assumes...)
+		afters = append(afters, cs.After...)
 	}
-	if len(assumes) > 0 {
+	if len(assumes) > 0 || len(afters) > 0 {
 		before := st.Clone()
 		res := X.execCallWith2(fr, ins, cc, st, how, fnv, args)
+		rv := map[string]*Val{}
+		if res != nil {
+			if res.Tuple != nil {
+				for i, v := range res.Tuple {
+					rv[fmt.Sprintf("result%d", i)] = v
+				}
+			} else {
+				rv["result"], rv["result0"] = res, res
+			}
+		}
+		for _, u := range afters {
+			srt, ok := X.ghostTypes[u.Name]
+			if !ok {
+				panic("updateafter of undeclared ghost " + u.Name)
+			}
+			sc := X.clauseCtx(fr, st, rv, "updateafter "+u.Name)
+			sc.Pre = before
+			X.setHeap(st, "GH|"+u.Name, srt, sc.eval(u.Expr).T)
+		}
 		for _, a := range assumes {
 			sc := X.clauseCtx(fr, st, nil, fmt.Sprintf("%s:%d", a.File, a.Line))
 			sc.Pre = before
@@ -658,6 +678,9 @@ func (X *Exec) havocLoc(c *SpecCtx, st *State, loc *SExpr) {
 			}
 		case "maxalloc":
 			X.setHeap(st, "GM|maxalloc", SInt, ts.Fresh("mod.maxalloc", SInt))
+			return
+		case "maxmake":
+			X.setHeap(st, "GM|maxmake", SInt, ts.Fresh("mod.maxmake", SInt))
 			return
 		case "boxed":
 			// boxed(x): what the pointer inside interface value x points to. Shallow targets (pointer to a basic
